@@ -34,8 +34,8 @@ def run(tier):
         H.freenull(prog, rep)
         H.cookie_init(prog, rep, L)
         H.eol_scan(prog, rep)
-        if H.header_index(prog, rep) < 4:      # "never reads or writes outside its own buffers": the parsed-header array
-            rep.defer_broken("W9-index: fewer than 4 subscripts of the parsed-header array found")
+        if H.header_index(prog, rep) < 2:      # "never reads or writes outside its own buffers": the parsed-header array
+            rep.defer_broken("W9-index: fewer than 2 subscripts of the parsed-header array found")
         H.chunk_framing(prog, rep)     # "never aborts": a consume of more than the line and its CRLF trips the reader's assertion
         if H.window_reads(prog, rep) < 2:
             rep.defer_broken("W11-inwindow: fewer than 2 reads of the window found in http.c")
